@@ -176,6 +176,26 @@ pub fn run() {
   run.set("exhaustive", json!(all_complete));
   run.set("preemption_bound", json!(if thorough { "3 for two threads x one call, 2 for two threads x two calls and three threads" } else { "2" }));
   run.set("scenarios", J::Object(per));
+  // constructs that share state between threads without passing an intercepted primitive (static mut, casts to *mut,
+  // unsafe impl Sync, cells in statics): loom cannot interleave at them. Those present in the baseline were read and are
+  // not shared between evaluations; a new one means this exploration does not cover what it introduces.
+  let baseline: J = std::fs::read_to_string(format!("{}/models/c20_sharing_baseline.json", root)).ok().and_then(|t| serde_json::from_str(&t).ok()).unwrap_or(json!({}));
+  let mut uncovered = vec![];
+  if let Some(now) = summary.get("sharing_constructs").and_then(|x| x.as_object()) {
+    for (file, pats) in now {
+      for (pat, n) in pats.as_object().into_iter().flatten() {
+        let before = baseline.get(file).and_then(|f| f.get(pat)).and_then(|x| x.as_u64()).unwrap_or(0);
+        if n.as_u64().unwrap_or(0) > before {
+          uncovered.push(format!("{}: `{}` x{} (baseline {})", file, pat, n, before));
+        }
+      }
+    }
+  }
+  for u in &uncovered {
+    println!("NOTE: a construct that shares state without an intercepted synchronisation primitive appeared since the baseline - {} - the loom exploration cannot interleave at it; this check says nothing about it", u);
+  }
+  run.set("interception_complete", json!(uncovered.is_empty()));
+  run.set("unintercepted_sharing_constructs_new", json!(uncovered));
   run.set("instrumentation", summary);
   run.assume("verif_sync shim (harness/verif_sync): loom Mutex / Condvar / atomics, std Arc, writer-preferring RwLock with reader count and poisoning; lazily initialised statics (regular expressions, decimal contexts) are initialised once per process and are not scheduling points; memory-ordering effects weaker than what loom models for the intercepted primitives are outside this check");
   run.finish();
